@@ -90,6 +90,9 @@ type Case struct {
 	KeepGhost    []int       `json:"keep_ghost,omitempty"` // IDs outside the universe in the keep-set
 	Uploads      []Upload    `json:"uploads,omitempty"`    // local/sftp prune cases: real StoreChunk calls before the prune
 	CLI          *CLICase    `json:"cli,omitempty"`        // run the operation through $VERIF_DESYNC_BIN (cli_test.go)
+	// local only (library and command): how the store directory is named, see storePathSpellings;
+	// "" = canonical (clean absolute path)
+	StorePath string `json:"store_path,omitempty"`
 	// local only: while the operation runs nothing can be unlinked in the prefix directories of
 	// these universe chunks (immutable flag, unlink_test.go)
 	UnlinkFail []int `json:"unlink_fail,omitempty"`
@@ -175,6 +178,9 @@ func genCase(t *rapid.T) Case {
 			e.Where = rapid.IntRange(0, 6).Draw(t, "where")
 		}
 		c.Extras = append(c.Extras, e)
+	}
+	if c.Backend == "local" && rapid.Bool().Draw(t, "spelled") {
+		c.StorePath = rapid.SampledFrom(storePathSpellings[1:]).Draw(t, "store_path")
 	}
 	if c.Backend == "local" && n > 0 && rapid.IntRange(0, 4).Draw(t, "unlink_fails") == 0 {
 		for i, k := 0, rapid.IntRange(1, 2).Draw(t, "unlink_dirs"); i < k; i++ {
@@ -512,6 +518,13 @@ func norm(c *Case) {
 	if c.Backend != "local" || len(c.Chunks) == 0 || c.Cancel {
 		c.UnlinkFail = nil
 	}
+	okSpelling := false
+	for _, sp := range storePathSpellings[1:] {
+		okSpelling = okSpelling || sp == c.StorePath
+	}
+	if c.Backend != "local" || !okSpelling {
+		c.StorePath = ""
+	}
 	if len(c.UnlinkFail) > 3 {
 		c.UnlinkFail = c.UnlinkFail[:3]
 	}
@@ -544,7 +557,7 @@ func run(c Case) (o hx.Outcome) {
 	switch c.Backend {
 	case "local":
 		var d *dirBackend
-		d, local = openLocal(c.Uncompressed)
+		d, local = openLocal(c.Uncompressed, c.StorePath)
 		be = d
 	case "sftp":
 		be = openSFTP(c.Uncompressed)
@@ -724,7 +737,7 @@ func run(c Case) (o hx.Outcome) {
 			}
 			keepMode = "indexes"
 		}
-		res := runCLI(c, be.(*dirBackend).dir, l)
+		res := runCLI(c, be.(*dirBackend), l)
 		cli = &res
 		if res.exit != 0 {
 			msg := res.stderr
@@ -875,6 +888,19 @@ func run(c Case) (o hx.Outcome) {
 	if unblock != nil {
 		unblock()
 	}
+	if c.Backend == "local" {
+		via, sp := "local", c.StorePath
+		if c.CLI != nil {
+			via = "cli"
+		}
+		if sp == "" {
+			sp = "canonical"
+		} else {
+			o.Class(via+":store-path:non-canonical", via+":store-path:non-canonical:"+c.Op)
+			desc["store_path"] = sp
+		}
+		o.Class(via + ":store-path:" + sp)
+	}
 	if len(v.blocked) > 0 {
 		via := "local"
 		if c.CLI != nil {
@@ -990,7 +1016,7 @@ var spec = &hx.Spec[Case]{
 	Level: "exploration",
 	Rule: "cases = store content over <=12 chunk IDs (per ID and format: absent/valid/5 kinds of invalid) + junk, temp-file names, chunk-like names in wrong places, IDs outside the universe, " +
 		"keep-set none/all/subset/+absent IDs, backend local | s3 (fake, with/without key prefix, paged listing, scripted DELETE/LIST faults) | sftp (fake ssh, 2 sessions), compressed/uncompressed mode, " +
-		"local: optionally unlink made to fail in the directories of chosen chunks; op = Prune (local/sftp: optionally after 1..3 real StoreChunk calls, some with a blocked final rename) or LocalStore.Verify(n in 1..16, repair on/off); non-trivial prune = both formats present and >=1 unreferenced own-format chunk and >=1 junk/temp/misplaced file; " +
+		"local (library and command): store path spelled canonical | trailing slash | // inside | /./ inside | dir/../dir | relative (plain, ./, trailing slash) with the parent as working directory | symbolic link to the store directory (with and without trailing slash) | symbolic link in the middle of the path; optionally unlink made to fail in the directories of chosen chunks; op = Prune (local/sftp: optionally after 1..3 real StoreChunk calls, some with a blocked final rename) or LocalStore.Verify(n in 1..16, repair on/off); non-trivial prune = both formats present and >=1 unreferenced own-format chunk and >=1 junk/temp/misplaced file; " +
 		"non-trivial verify = both formats present and >=1 invalid and >=1 valid own-format chunk; distinct by (backend, mode, op, per-ID states, extras, keep, n, repair, fault)",
 	Assumptions: []string{
 		"a chunk file is <4 hex>/<64 hex>[.cacnk] (lower case) whose directory equals the first 4 digits; anything else is not a chunk file",
@@ -1013,6 +1039,10 @@ var spec = &hx.Spec[Case]{
 		"local:abandoned-tempfile:real-upload:prune-ok", "sftp:abandoned-tempfile:real-upload:prune-ok",
 		"local:prune:unlink-fails", "local:prune:unlink-fails:delivered", "local:prune:unlink-fails:delivered:error-returned",
 		"local:verify-repair:unlink-fails", "local:verify-repair:unlink-fails:delivered", "local:verify:unlink-fails",
+		"local:store-path:canonical", "local:store-path:non-canonical", "local:store-path:non-canonical:prune", "local:store-path:non-canonical:verify",
+		"local:store-path:trailing-slash", "local:store-path:double-slash", "local:store-path:dot", "local:store-path:dotdot",
+		"local:store-path:relative", "local:store-path:relative-dot", "local:store-path:relative-trailing-slash",
+		"local:store-path:symlink", "local:store-path:symlink-trailing-slash", "local:store-path:symlink-in-path",
 	},
 	Gen: genCase,
 	Run: run,
@@ -1386,6 +1416,42 @@ func TestEnumUnlink(t *testing.T) {
 		}
 	}
 	hx.Exhaustive("unlink failing in one chunk's directory: prune (referenced/not) and verify (valid/invalid x repair x n in {1,3}) x mode, library and command")
+}
+
+// TestEnumStorePath: every spelling of the store path x store mode x prune / verify with repair,
+// as library calls and, with $VERIF_DESYNC_BIN, through the command (spread over the shards).
+func TestEnumStorePath(t *testing.T) {
+	extras := []Extra{{Kind: "junk", Where: 0, Form: 0, Seed: 2}, {Kind: "tmp", Where: 1, Ref: 2, Form: 0, Seed: 77}}
+	vias := []bool{false}
+	if cliBin() != "" {
+		vias = append(vias, true)
+	}
+	i := 0
+	for _, viaCLI := range vias {
+		for _, sp := range storePathSpellings {
+			for _, unc := range []bool{false, true} {
+				for _, op := range []string{"prune", "verify"} {
+					i++
+					if i%hx.Shards() != hx.Shard() {
+						continue
+					}
+					c := Case{Backend: "local", Uncompressed: unc, Op: op, N: 2, Repair: true, StorePath: sp, Extras: extras,
+						Chunks: []ChunkSpec{{Seed: 41, Len: 40, C: 2, U: 2}, {Seed: 42, Len: 50, C: 1, U: 1, Keep: true}, {Seed: 43, Len: 60, C: 1, U: 1}}}
+					if op == "prune" {
+						c.Uploads = []Upload{{Ref: 0, Block: false}}
+					}
+					if viaCLI {
+						c.Uploads = nil
+						c.CLI = &CLICase{Indexes: []CLIIndex{{Chunks: []int{1}}}, Long: i%2 == 0}
+					}
+					if !hx.Case(t, spec, c) {
+						return
+					}
+				}
+			}
+		}
+	}
+	hx.Exhaustive("store path spellings (canonical, trailing slash, //, /./, dir/../dir, relative plain/./trailing slash, symlink, symlink/, symlink in the path) x mode x prune/verify-repair, library and command")
 }
 
 func TestProp(t *testing.T) { hx.Prop(t, spec) }
